@@ -240,8 +240,15 @@ func c02OpensExistingForAppend(s *c02Src) (appendMode Tri, truncates Tri, where 
 	switch {
 	case strings.Contains(flags, "O_TRUNC"):
 		return No, No, where
-	case len(truncCalls) > 0:
-		return Yes, Yes, c02Where(s.w, truncCalls[0])
+	case len(truncCalls) > 0 || len(s.w.Calls(oe, "fw.createNewFile")) > 0:
+		// the repaired open: a file too short for header (and name) is started over — two
+		// `return fw.createNewFile()` — and a torn tail is cut by walking the block headers
+		recreate := len(s.w.Calls(oe, "fw.createNewFile"))
+		walks := s.w.Contains(oe, "file.ReadAt(") && s.w.Contains(oe, "BlockHeaderSize")
+		if len(truncCalls) == 1 && recreate == 2 && walks && seekEnd {
+			return Yes, Yes, c02Where(s.w, truncCalls[0])
+		}
+		return Yes, Unknown, where
 	case seekEnd && !strings.Contains(flags, "O_APPEND"):
 		return Yes, No, where
 	}
